@@ -25,7 +25,7 @@ ANCHORS = ['classes:_make_init', 'classes:PaneConverter.try_convert_struct', 'cl
            'classes:PaneConverter.collect_errors_struct', 'classes:PaneConverter.collect_errors_tuple']
 MIN_COUNTERS = {'quick': {'constructions': 30000, 'factory_defaults_checked': 8000, 'set_records_checked': 20000,
                           'post_init_instances_checked': 8000, 'three_path_comparisons': 4000, 'rejected_argument_cases': 3000,
-                          'post_init_raise_cases': 300}}
+                          'post_init_raise_cases': 300, 'late_hook_paths_checked': 1500, 'set_record_hook_cases': 300}}
 
 
 class CountedFactory:
